@@ -2,4 +2,5 @@ import Cell2v.Audit
 import Cell2v.Props.C09
 import Cell2v.Props.C09Ring
 import Cell2v.Props.C09Mpsc
+import Cell2v.Props.C09Sched
 #audit_ns Cell2v.Props.C09
